@@ -1,6 +1,259 @@
-(* C16 - property theorems only (placeholder during development). *)
-From Coq Require Import List Arith Bool Ascii String ZArith.
-From Cb Require Import C16.Model.
-Theorem placeholder_dec0 : dec 0%Z = s2l "0".
+(* C16 - property theorems only.  Statements are about the Mech model of the output path (Model.v:
+   output_manager.cpp, the interpolation splitter, format_interpolated_value) and the readers of Spec.v;
+   the proofs are in Digits.v / Format.v / Convert.v / Segments.v / Print.v. *)
+From Coq Require Import List Arith Bool Ascii String ZArith NArith.
+From Cb Require Import C16.Model C16.Spec C16.Digits C16.Format C16.Convert C16.Segments C16.Print.
+Import ListNotations.
+Local Open Scope char_scope.
+
+(* ---------------- decimal text of an integer (println, %d, {n}) ---------------- *)
+
+(* reading the printed decimal back gives the value, for every integer (no 64-bit bound) *)
+Theorem dec_roundtrip : forall z : Z, parse_dec (dec z) = Some z.
+Proof. exact dec_roundtrip_l. Qed.
+Print Assumptions dec_roundtrip.
+
+(* digits only, no leading zero, '-' only in front of a non-zero number *)
+Theorem dec_canonical : forall z : Z, is_canonical_dec (dec z) = true.
+Proof. exact dec_canonical_l. Qed.
+Print Assumptions dec_canonical.
+
+Theorem dec_injective : forall a b : Z, dec a = dec b -> a = b.
+Proof. exact dec_injective_l. Qed.
+Print Assumptions dec_injective.
+
+(* println(n), "%d", "%lld" and "{n}" all print exactly dec n *)
+Theorem converters_agree : forall (e : env) (z : Z),
+  stmt_out e (SPrint true [AInt z]) = inl (dec z ++ ["010"]) /\
+  render (s2l "%d") [FInt z] = Some (dec z) /\
+  render (s2l "%lld") [FInt z] = Some (dec z) /\
+  format_value (VInt z) [] = dec z.
+Proof.
+  intros e z. split; [ apply println_int_is_dec | ]. split; [ apply printf_plain_d_is_dec | ].
+  split; [ apply printf_lld_is_dec | apply interp_default_is_dec ].
+Qed.
+Print Assumptions converters_agree.
+
+(* ---------------- printf directives: flags - and 0, any width, any value ---------------- *)
+
+(* %[-][0][w]d prints what C printf prints *)
+Theorem printf_d_is_c_printf : forall (minus zero : bool) (w : nat) (v : Z),
+  render (directive minus zero w "d") [FInt v] = Some (pad_num minus zero w (sign_of v) (mag_of v)).
+Proof. exact printf_d_l. Qed.
+Print Assumptions printf_d_is_c_printf.
+
+(* |out| = max w |digits| for d i u o x X *)
+Theorem pad_length_printf : forall c minus zero w a out, int_conv_char c ->
+  render (directive minus zero w c) [a] = Some out ->
+  List.length out =
+  Nat.max w (List.length (fst (int_body c (farg_int a))) + List.length (snd (int_body c (farg_int a)))).
+Proof. exact printf_int_length. Qed.
+Print Assumptions pad_length_printf.
+
+Theorem pad_length_printf_d : forall minus zero w v out,
+  render (directive minus zero w "d") [FInt v] = Some out -> List.length out = Nat.max w (List.length (dec v)).
+Proof. exact printf_d_length. Qed.
+Print Assumptions pad_length_printf_d.
+
+(* %0wd : sign first, zeros between sign and digits, and the text still reads back as the value *)
+Theorem printf_zero_pad_keeps_sign_first : forall (w : nat) (v : Z),
+  render (directive false true w "d") [FInt v] =
+    Some (sign_of v ++ zeros (w - List.length (dec v)) ++ mag_of v) /\
+  parse_dec (sign_of v ++ zeros (w - List.length (dec v)) ++ mag_of v) = Some v.
+Proof. exact printf_zero_pad_l. Qed.
+Print Assumptions printf_zero_pad_keeps_sign_first.
+
+(* %u %o %x %X print the two's-complement image: reading back gives v mod 2^64 *)
+Theorem printf_unsigned_roundtrip_mod_2_64 : forall c b u v,
+  In (c, b, u) [("u", 10%N, false); ("o", 8%N, false); ("x", 16%N, false); ("X", 16%N, true)] ->
+  exists out, render (directive false false 0 c) [FInt v] = Some out /\
+              option_map Z.of_N (parse_base b out) = Some (v mod 18446744073709551616)%Z.
+Proof. exact printf_unsigned_roundtrip_l. Qed.
+Print Assumptions printf_unsigned_roundtrip_mod_2_64.
+
+(* %[-][w]s pads the text with spaces; %[-][w]c prints the one byte *)
+Theorem printf_s_pads_text : forall minus zero w s, clean s ->
+  render (directive minus zero w "s") [FStr s] = Some (pad_str minus w s).
+Proof. exact printf_s_l. Qed.
+Print Assumptions printf_s_pads_text.
+
+Theorem printf_c_one_byte : forall minus zero w v, clean [byte_of_Z v] ->
+  render (directive minus zero w "c") [FInt v] = Some (pad_str minus w [byte_of_Z v]).
+Proof. exact printf_c_l. Qed.
+Print Assumptions printf_c_one_byte.
+
+(* ... but not for a byte value 0: the faithful model prints the decimal number (known finding
+   C16-percent-c-nul) *)
+Theorem printf_c_as_c_printf_refuted :
+  exists v, byte_of_Z v = "000" /\ render (s2l "%c|") [FInt v] = Some (s2l "0|").
+Proof. exists 0%Z. vm_compute. split; reflexivity. Qed.
+Print Assumptions printf_c_as_c_printf_refuted.
+
+(* ... and a backslash produced by %c merges with the following format text, because escapes are
+   processed after substitution (known finding C16-escapes-after-substitution) *)
+Theorem printf_escapes_after_substitution_refuted :
+  exists v, byte_of_Z v = "\" /\ render (s2l "%cn|") [FInt v] = Some ["010"; "|"].
+Proof. exists 92%Z. vm_compute. split; reflexivity. Qed.
+Print Assumptions printf_escapes_after_substitution_refuted.
+
+(* %% : a text with every '%' doubled renders as the text *)
+Theorem percent_percent : forall t, no_backslash t -> render (escape_percent t) [] = Some t.
+Proof. exact render_percent_percent. Qed.
+Print Assumptions percent_percent.
+
+(* ---------------- interpolation specs ---------------- *)
+
+Theorem interp_width_is_right_aligned : forall zero w z tc,
+  tc = [] \/ tc = ["d"] -> (zero = true \/ w <> 0 \/ tc <> []) ->
+  format_value (VInt z) (ispec zero w tc) = ipad zero w (dec z).
+Proof. exact interp_dec_width_l. Qed.
+Print Assumptions interp_width_is_right_aligned.
+
+Theorem pad_length_interp : forall zero w z tc,
+  tc = [] \/ tc = ["d"] -> (zero = true \/ w <> 0 \/ tc <> []) ->
+  List.length (format_value (VInt z) (ispec zero w tc)) = Nat.max w (List.length (dec z)).
+Proof. exact interp_width_length_l. Qed.
+Print Assumptions pad_length_interp.
+
+(* {n:x} {n:X} {n:0Nx}: reading back gives n mod 2^64 *)
+Theorem hex_roundtrip_mod_2_64 : forall w z upper,
+  option_map Z.of_N (parse_base 16 (format_value (VInt z) (ispec true w [hex_letter upper])))
+  = Some (z mod 18446744073709551616)%Z /\
+  option_map Z.of_N (parse_base 16 (format_value (VInt z) [hex_letter upper]))
+  = Some (z mod 18446744073709551616)%Z.
+Proof. exact interp_hex_roundtrip_l. Qed.
+Print Assumptions hex_roundtrip_mod_2_64.
+
+Theorem bin_roundtrip_mod_2_64 : forall zero w z,
+  option_map Z.of_N (parse_base 2 (format_value (VInt z) (ispec zero w ["b"])))
+  = Some (z mod 18446744073709551616)%Z.
+Proof. exact interp_bin_roundtrip_l. Qed.
+Print Assumptions bin_roundtrip_mod_2_64.
+
+(* {n:0N} / {n:0Nd}: correct for non-negative values only ... *)
+Theorem interp_zero_pad_partial : forall w z tc, (0 <= z)%Z -> tc = [] \/ tc = ["d"] ->
+  parse_dec (format_value (VInt z) (ispec true w tc)) = Some z.
+Proof. exact interp_zero_pad_nonneg_l. Qed.
+Print Assumptions interp_zero_pad_partial.
+
+(* ... the fill goes in front of the sign (DESIGN.md finding #27, known finding C16-interp-zero-pad-sign) *)
+Theorem interp_zero_pad_keeps_sign_first_refuted :
+  exists z w, (z < 0)%Z /\ format_value (VInt z) (ispec true w []) = s2l "0-255" /\
+              parse_dec (format_value (VInt z) (ispec true w [])) = None.
+Proof. exists (-255)%Z, 5. vm_compute. repeat split; reflexivity. Qed.
+Print Assumptions interp_zero_pad_keeps_sign_first_refuted.
+
+(* ---------------- the interpolation splitter ---------------- *)
+
+(* re-bracing the expression segments, re-doubling the braces of the text segments and restoring the
+   dropped '$' gives the literal back: nothing is lost, duplicated or reordered; any byte included *)
+Theorem segments_partition_text : forall s segs, split s = Some segs -> unsplit segs = s.
+Proof. exact split_partitions_l. Qed.
+Print Assumptions segments_partition_text.
+
+(* a literal without { } $ is one text segment *)
+Theorem plain_text_is_one_segment : forall t, plain_text t ->
+  split t = Some (match t with [] => [] | _ => [SText t] end).
+Proof. exact split_plain_l. Qed.
+Print Assumptions plain_text_is_one_segment.
+
+(* {{ and }} *)
+Theorem double_brace_splits_to_text : forall t, no_dollar t ->
+  split (escape_braces t) = Some (match t with [] => [] | _ => [SText t] end).
+Proof. exact split_escaped_l. Qed.
+Print Assumptions double_brace_splits_to_text.
+
+Theorem double_brace_literal : forall e t, no_dollar t -> no_backslash t -> In "{" t ->
+  eval_quoted e (escape_braces t) = inl t.
+Proof. exact double_brace_literal_l. Qed.
+Print Assumptions double_brace_literal.
+
+(* the value of an interpolated literal is the concatenation of its segments' values, text verbatim *)
+Theorem interp_value_is_concat : forall e l, Forall (bound e) l ->
+  eval_segs e l = inl (List.concat (map (seg_out e) l)).
+Proof. exact eval_segs_concat_l. Qed.
+Print Assumptions interp_value_is_concat.
+
+(* text around an interpolated expression is byte-identical (every byte value, UTF-8 or not) *)
+Theorem interp_text_untouched : forall e t1 ex t2 v,
+  plain_text t1 -> no_backslash t1 -> plain_text t2 -> no_braces ex ->
+  lookup e (fst (split_colon ex)) = Some v ->
+  eval_quoted e (t1 ++ "{" :: ex ++ "}" :: t2) =
+  inl (t1 ++ format_value v (match snd (split_colon ex) with Some f => f | None => [] end) ++ t2).
+Proof. exact interp_text_untouched_l. Qed.
+Print Assumptions interp_text_untouched.
+
+(* ---------------- print / println ---------------- *)
+
+Theorem println_single_spaces : forall e nl args vs, 2 <= List.length args -> find_fmt args = None ->
+  Forall2 (fun a v => print_value e a = inl v) args vs ->
+  stmt_out e (SPrint nl args) = inl (join_sp vs ++ (if nl then ["010"] else [])).
+Proof. exact println_single_spaces_l. Qed.
+Print Assumptions println_single_spaces.
+
+Theorem println_values : forall e nl args, 2 <= List.length args -> Forall not_literal args ->
+  stmt_out e (SPrint nl args) = inl (join_sp (map value_text args) ++ (if nl then ["010"] else [])).
+Proof. exact println_values_l. Qed.
+Print Assumptions println_values.
+
+Theorem println_format_path : forall e nl pre f post vs fa out,
+  find_fmt (pre ++ AQuoted f :: post) = Some (pre, f, post) -> 2 <= List.length (pre ++ AQuoted f :: post) ->
+  Forall2 (fun a v => print_value e a = inl v) pre vs ->
+  collect e post = inl fa -> render f fa = Some out ->
+  stmt_out e (SPrint nl (pre ++ AQuoted f :: post)) =
+  inl (List.concat (map (fun v => v ++ [" "]) vs) ++ cstr out ++ (if nl then ["010"] else [])).
+Proof. exact println_format_path_l. Qed.
+Print Assumptions println_format_path.
+
+(* escapes of a string literal are processed when it is the only argument, not when it is one of several
+   (known finding C16-multiarg-escape) *)
+Theorem println_escapes_uniform_refuted :
+  exists s, stmt_out [] (SPrint true [AQuoted s]) = inl (["a"; "009"; "b"; "010"]) /\
+            stmt_out [] (SPrint true [AQuoted s; AInt 1]) = inl (s2l "a\tb 1" ++ ["010"]).
+Proof. exists (s2l "a\tb"). vm_compute. split; reflexivity. Qed.
+Print Assumptions println_escapes_uniform_refuted.
+
+(* an escaped backslash directly before a directive hides the directive
+   (known finding C16-backslash-before-percent) *)
+Theorem escaped_backslash_then_directive_refuted :
+  exists f, has_fmt f = false /\
+            stmt_out [] (SPrint true [AQuoted f; AInt 5]) = inl (s2l "a\\%d| 5" ++ ["010"]).
+Proof. exists (s2l "a\\%d|"). vm_compute. split; reflexivity. Qed.
+Print Assumptions escaped_backslash_then_directive_refuted.
+
+(* ---------------- order of output ---------------- *)
+
+Theorem output_is_concatenation : forall e p outs, no_fail p ->
+  Forall2 (fun s o => stmt_out e s = inl o) p outs -> exec e p = (inl (List.concat outs), false).
+Proof. exact exec_concat_l. Qed.
+Print Assumptions output_is_concatenation.
+
+Theorem output_in_order : forall e p q op oq, no_fail p ->
+  exec e p = (inl op, false) -> exec e q = (inl oq, false) -> exec e (p ++ q) = (inl (op ++ oq), false).
+Proof. exact output_in_order_l. Qed.
+Print Assumptions output_in_order.
+
+(* everything printed before the failing statement is on stdout, nothing printed after it is *)
+Theorem output_before_error_exit : forall e p q op, no_fail p -> exec e p = (inl op, false) ->
+  exec e (p ++ SFail :: q) = (inl op, true).
+Proof. exact output_before_error_l. Qed.
+Print Assumptions output_before_error_exit.
+
+(* ---------------- non-vacuity ---------------- *)
+Example ex_directive : directive false true 5 "d" = s2l "%05d" /\ directive true false 12 "x" = s2l "%-12x".
+Proof. split; reflexivity. Qed.
+Example ex_printf : render (s2l "[%05d|%-6x|%3s|%c|%%]") [FInt (-42); FInt 255; FStr (s2l "ab"); FInt 65]
+                    = Some (s2l "[-0042|ff    | ab|A|%]").
 Proof. vm_compute. reflexivity. Qed.
-Print Assumptions placeholder_dec0.
+Example ex_interp :
+  eval_quoted [(s2l "n", VInt (-255)); (s2l "s", VStr (s2l "é"))] (s2l "a{{{n:x}}}|{n:6}|${s}|{n:012b}")
+  = inl (s2l "a{ffffffffffffff01}|  -255|é|1111111111111111111111111111111111111111111111111111111100000001").
+Proof. vm_compute. reflexivity. Qed.
+Example ex_split : split (s2l "x{{${a+b:04}}}y") =
+  Some [SText (s2l "x{"); SDollar; SExpr (s2l "a+b") (Some (s2l "04")); SText (s2l "}y")].
+Proof. vm_compute. reflexivity. Qed.
+Example ex_program :
+  run_program [] [SPrint true [AInt 1; AStr (s2l "two"); AQuoted (s2l "%d!"); AInt 3]; SPrint false [AQuoted (s2l "x\n")]; SFail;
+                  SPrint true [AInt 4]]
+  = (inl (s2l "1 two 3!" ++ ["010"; "x"; "010"]), true).
+Proof. vm_compute. reflexivity. Qed.
